@@ -239,10 +239,96 @@ theorem markReceived_dup (rx : Rx) (tsn : Int) (h : uint32_gte rx.last tsn = tru
     (markReceived rx tsn).2.last = rx.last := by
   unfold markReceived; simp [h]
 
+theorem consolidate_mem : ∀ (S : List Int) (a : Int), consolidate a S = a ∨ consolidate a S ∈ S := by
+  intro S
+  induction S with
+  | nil => intro a; left; rfl
+  | cons u us ih =>
+    intro a
+    unfold consolidate
+    split
+    · rcases ih u with h | h
+      · right; rw [h]; simp
+      · right; simp [h]
+    · left; rfl
+
+
+/-- the chunk after the cumulative TSN moves the cumulative TSN to itself or to a TSN that was misordered -/
+theorem markReceived_next_mem (rx : Rx) (h : RxOk rx) :
+    (markReceived rx (tsn_plus_one rx.last)).2.last ∈ tsn_plus_one rx.last :: rx.mis := by
+  have hl := h.last
+  have hgte : uint32_gte rx.last (tsn_plus_one rx.last) = false := by
+    unfold uint32_gte uint32_gt tsn_plus_one; unfold R32 at hl
+    rw [Bool.eq_false_iff]; simp only [ne_eq, Bool.or_eq_true, Bool.and_eq_true, decide_eq_true_eq]; omega
+  unfold markReceived
+  simp only [hgte, h.next, Bool.or_self, Bool.false_eq_true, if_false]
+  -- the sorted list starts with the new TSN
+  have hn32 : R32 (tsn_plus_one rx.last) := by unfold tsn_plus_one R32; omega
+  have hnotin : tsn_plus_one rx.last ∉ rx.mis := by
+    have := h.next; simpa using this
+  have hdist : (rx.mis ++ [tsn_plus_one rx.last]).Pairwise (fun x y => serialKey rx.last x ≠ serialKey rx.last y) := by
+    have hnd : (rx.mis ++ [tsn_plus_one rx.last]).Nodup := by
+      rw [List.nodup_append]
+      refine ⟨h.nodup, by simp, ?_⟩
+      intro a ha b hb
+      simp only [List.mem_singleton] at hb
+      subst hb
+      intro hab; subst hab; exact hnotin ha
+    refine List.Pairwise.imp_of_mem ?_ hnd
+    intro x y hx hy hne hk
+    apply hne
+    have hx32 : R32 x := by
+      simp only [List.mem_append, List.mem_singleton] at hx
+      rcases hx with hx | rfl
+      · exact (h.mis x hx).1
+      · exact hn32
+    have hy32 : R32 y := by
+      simp only [List.mem_append, List.mem_singleton] at hy
+      rcases hy with hy | rfl
+      · exact (h.mis y hy).1
+      · exact hn32
+    unfold serialKey at hk; unfold R32 at hx32 hy32; omega
+  have hsorted := sortByKey_sorted rx.last _ hdist
+  have hmem : ∀ x, x ∈ sortByKey rx.last (rx.mis ++ [tsn_plus_one rx.last]) ↔ x ∈ rx.mis ++ [tsn_plus_one rx.last] :=
+    fun x => mem_sortByKey rx.last x _
+  generalize hS : sortByKey rx.last (rx.mis ++ [tsn_plus_one rx.last]) = S at hsorted hmem
+  cases S with
+  | nil =>
+    have := (hmem (tsn_plus_one rx.last)).mpr (by simp)
+    cases this
+  | cons hd rest =>
+    have hhd : hd = tsn_plus_one rx.last := by
+      have hin : tsn_plus_one rx.last ∈ hd :: rest := (hmem _).mpr (by simp)
+      simp only [List.mem_cons] at hin
+      rcases hin with hin | hin
+      · exact hin.symm
+      · exfalso
+        have hlt := (List.pairwise_cons.mp hsorted).1 _ hin
+        have hhdm : hd ∈ rx.mis ++ [tsn_plus_one rx.last] := (hmem hd).mp (by simp)
+        simp only [List.mem_append, List.mem_singleton] at hhdm
+        rcases hhdm with hm | hm
+        · have := h.mis hd hm
+          unfold serialKey tsn_plus_one at hlt; unfold R32 at this hl
+          omega
+        · rw [hm] at hlt; omega
+    subst hhd
+    have : consolidate rx.last (tsn_plus_one rx.last :: rest) = consolidate (tsn_plus_one rx.last) rest := by
+      simp [consolidate]
+    simp only [this]
+    rcases consolidate_mem rest (tsn_plus_one rx.last) with e | e
+    · rw [e]; simp
+    · have := (hmem _).mp (List.mem_cons_of_mem _ e)
+      simp only [List.mem_append, List.mem_singleton] at this
+      simp only [List.mem_cons]
+      rcases this with h' | h'
+      · exact Or.inr h'
+      · exact Or.inl h'
+
+
 /-! ## the sender: a SACK that is not stale is processed -/
 
 theorem receiveSack_some (t : Tx) (cum : Int) (gaps : List (Nat × Nat)) (now : Int) (ho : ∀ c ∈ t.outQ, Idle c)
-    (h : uint32_gt t.lastSacked cum = false) : ∃ t' evs, t.receiveSack cum gaps now = .ok (some (t', evs)) := by
+    (h : t.sackStale cum = false) : ∃ t' evs, t.receiveSack cum gaps now = .ok (some (t', evs)) := by
   obtain ⟨r, hr⟩ := receiveSack_ok t cum gaps now ho
   cases r with
   | some p => exact ⟨p.1, p.2, hr⟩
@@ -262,6 +348,18 @@ theorem t3Expired_lastSacked (t : Tx) (now : Int) (hw : WInv t) : (t.t3Expired n
 
 theorem transmit_lastSacked (t : Tx) : t.transmit.1.lastSacked = t.lastSacked := by
   have : t.transmit.1.ctl.lastSacked = t.ctl.lastSacked := by rw [(transmit_facts t).frame]
+  exact this
+
+theorem t3Expired_localTsn (t : Tx) (now : Int) (hw : WInv t) : (t.t3Expired now).localTsn = t.localTsn := by
+  rw [t3Expired_eq]
+  have ha := (updateAdvAck_spec (t.t3Marked now)).frame
+  have hm := (t3Marked_spec t now hw).frame
+  simp only
+  rw [ha]; simp only
+  rw [hm]
+
+theorem transmit_localTsn (t : Tx) : t.transmit.1.localTsn = t.localTsn := by
+  have : t.transmit.1.ctl.localTsn = t.ctl.localTsn := by rw [(transmit_facts t).frame]
   exact this
 
 /-! ## delivering a burst -/
@@ -309,6 +407,8 @@ structure Link.Coherent (s : Link) : Prop where
   /-- the receiver's cumulative TSN equals the last one the sender saw acknowledged, or is ahead of it (SACKs were
   lost), by less than half the sequence space -/
   ahead : ∃ j : Nat, j + s.rx.mis.length + 1 < 2147483648 ∧ s.rx.last = (s.tx.lastSacked + (j : Int)) % 4294967296
+  /-- the receiver has only received TSNs that were assigned (a SACK beyond the last TSN assigned is ignored) -/
+  sent : ∀ x ∈ s.rx.last :: s.rx.mis, uint32_gt x (tsn_minus_one s.tx.localTsn) = false
 
 /-- **Progress of one epoch.** In a coherent state with an empty network, no pending task and T3 armed, if the
 chunk that follows the cumulative ack is still outstanding after T3 (`hq`, `hct`: it was not abandoned),
@@ -317,7 +417,8 @@ datagram, the first SACK comes back — strictly advances the sender's cumulativ
 `3 + (number of datagrams in the burst)` steps. -/
 theorem Link.epoch_progress (s : Link) (hc : s.Coherent) (hrx : s.toRx = []) (htx : s.toTx = [])
     (hp : s.pending = false) (h3 : s.tx.t3 = true) (c : SChunk) (cs : List SChunk)
-    (hq : (s.tx.t3Expired s.now1000).sentQ = c :: cs) (hct : c.tsn = tsn_plus_one s.tx.lastSacked) :
+    (hq : (s.tx.t3Expired s.now1000).sentQ = c :: cs) (hct : c.tsn = tsn_plus_one s.tx.lastSacked)
+    (hsent : uint32_gt c.tsn (tsn_minus_one s.tx.localTsn) = false) :
     uint32_gt (Link.run (3 + (dataOf (s.tx.t3Expired s.now1000).transmit.2).length) s).tx.lastSacked
       s.tx.lastSacked = true := by
   have hw : WInv s.tx := hc.inv.flight.winv
@@ -374,15 +475,34 @@ theorem Link.epoch_progress (s : Link) (hc : s.Coherent) (hrx : s.toRx = []) (ht
         omega
       rw [markReceived_dup _ _ hdup, hlast]
       exact ⟨j, hjp, by omega, rfl⟩
+  have hLs : uint32_gt (markReceived s.rx c.tsn).2.last (tsn_minus_one s.tx.localTsn) = false := by
+    rcases Nat.eq_zero_or_pos j with hj0 | hjp
+    · subst hj0
+      have hl : s.rx.last = s.tx.lastSacked := by unfold R32 at hls; rw [hlast]; simp; omega
+      have hm := markReceived_next_mem s.rx hc.rx
+      rw [hl, ← hct] at hm
+      simp only [List.mem_cons] at hm
+      rcases hm with hm | hm
+      · rw [hm]; exact hsent
+      · exact hc.sent _ (by simp [hm])
+    · have hdup : uint32_gte s.rx.last c.tsn = true := by
+        rw [hct, hlast]
+        unfold uint32_gte uint32_gt tsn_plus_one; unfold R32 at hls
+        simp only [Bool.or_eq_true, Bool.and_eq_true, decide_eq_true_eq]
+        omega
+      rw [markReceived_dup _ _ hdup]; exact hc.sent _ (by simp)
   obtain ⟨k, hk1, hk2, hLk⟩ := hL
-  generalize (markReceived s.rx c.tsn).2.last = L at r5 hLk
+  generalize (markReceived s.rx c.tsn).2.last = L at r5 hLk hLs
   -- step m + 3: the SACK is handled
   have h3tx : s3.tx.lastSacked = s.tx.lastSacked := by
     rw [r1, h2tx, transmit_lastSacked, t3Expired_lastSacked _ _ hw]
-  have hstale : uint32_gt s3.tx.lastSacked L = false := by
-    rw [h3tx, hLk]
-    unfold uint32_gt; unfold R32 at hls
-    rw [Bool.eq_false_iff]; simp only [ne_eq, Bool.or_eq_true, Bool.and_eq_true, decide_eq_true_eq]
+  have h3loc : s3.tx.localTsn = s.tx.localTsn := by
+    rw [r1, h2tx, transmit_localTsn, t3Expired_localTsn _ _ hw]
+  have hstale : s3.tx.sackStale L = false := by
+    unfold Tx.sackStale
+    rw [h3loc, hLs, Bool.or_false, h3tx, hLk]
+    unfold uint32_gte uint32_gt; unfold R32 at hls
+    simp only [Bool.not_eq_eq_eq_not, Bool.not_false, Bool.or_eq_true, Bool.and_eq_true, decide_eq_true_eq]
     omega
   have hgt : uint32_gt L s.tx.lastSacked = true := by
     rw [hLk]
